@@ -512,9 +512,10 @@ def gen_line(G, rng):
 
 
 def track_task(args):
-    spec, repo, seed, n = args
+    spec, repo, seed, n = args[:4]
+    forced = args[4] if len(args) > 4 else None
     try:
-        return _track_task(spec, repo, seed, n)
+        return _track_task(spec, repo, seed, n, forced)
     except Exception:
         return {'crash': traceback.format_exc()}
 
@@ -551,12 +552,17 @@ def check_track(G, l0, l1, tr, exp, fail):
     missing = [i for i in must if i not in got]
     extra = [i for i in got if i not in may]
     if missing:
-        # classify: crossing short relative to its distance from the start of the line?
-        rho = min(info[i][2] / max(info[i][1] * L, 1e-300) for i in missing)
-        key = ('column_track:crossing-short-relative-to-distance-from-start' if rho < 1.05e-3
+        # classify.  Known defect (findings/C12-column-track-far-crossing.json): line_polygon_intersections
+        # merges crossing points whose distances from the START of the line differ by less than 1e-3 of
+        # max(distance of one of the crossings from the start, 1), so a column crossed far from the start
+        # (relative to its own size) loses one of its two crossing points and is dropped.  The key is given
+        # only when EVERY missing column is in that class (crossing length < 1.05e-3 x max(distance of its
+        # exit point from the start, 1)); any other omission is a different failure.
+        rhos = [info[i][2] / max(info[i][1] * L, 1.0) for i in missing]
+        key = ('column_track:crossing-short-relative-to-distance-from-start' if max(rhos) < 1.05e-3
                else 'column_track:crossed-column-missing')
-        fail(key, 'track omits %s (crossing length / longest side = %s; length / distance from start = %.3g)' % (
-            [G.cols[i].name for i in missing], ['%.3g' % info[i][3] for i in missing], rho),
+        fail(key, 'track omits %s (crossing length / longest side = %s; length / max(distance of exit from start, 1) = %s)' % (
+            [G.cols[i].name for i in missing], ['%.3g' % info[i][3] for i in missing], ['%.3g' % r for r in rhos]),
             'every column crossed over more than 1e-3 x its longest side is listed')
         return
     if extra:
@@ -603,7 +609,8 @@ def check_track(G, l0, l1, tr, exp, fail):
              'length inside the domain %.9g minus dropped clips %.9g' % (inside, dropped))
 
 
-def _track_task(spec, repo, seed, n):
+def _track_task(spec, repo, seed, n, forced=None):
+    """forced: a list of fixed lines [[l0, l1], ...] run instead of generated ones (witnesses of findings)"""
     from geometry import line_polygon_intersections, line_intersects_rectangle
     G = get_ctx(spec, repo)
     g = G.geo
@@ -613,9 +620,14 @@ def _track_task(spec, repo, seed, n):
     cnt = out['counts']
     done = tries = 0
     etol = 1e-6
+    if forced is not None: n = len(forced)
     while done < n and tries < 20 * n + 100:
         tries += 1
-        l0, l1, cls = gen_line(G, rng)
+        if forced is not None:
+            if tries > len(forced): break
+            l0, l1, cls = list(forced[tries - 1][0]), list(forced[tries - 1][1]), 'fixed-witness'
+        else:
+            l0, l1, cls = gen_line(G, rng)
         L = math.hypot(l1[0] - l0[0], l1[1] - l0[1])
         if L < 1e-6 * G.scale: continue
         if G.edge_clearance(l0) < 1.0 or G.edge_clearance(l1) < 1.0:
